@@ -97,6 +97,9 @@ def stepD (d : DSt) : List String → DSt × String
     | some uo, some co =>
       ({ d with st := d.st.fileOrder uo co }, if d.st.fileOrderOk uo co then "ok" else "order-mismatch")
     | _, _ => (d, "bad-op")
+  | ["expire"] =>
+    let st' := stepEv d.cfg d.st .expire
+    ({ d with st := st' }, encB true ++ "\t" ++ encSt st')
   | ["owners"] => (d, if (owners d.st).isEmpty then "-" else ",".intercalate ((owners d.st).map encN))
   | _ => (d, "bad-op")
 
